@@ -111,6 +111,8 @@ TraceReset ==
             \cup (IF "C10" \in W THEN C10Of(sd) ELSE {})
             \cup (IF "C11" \in W THEN {[x EXCEPT !.sig = x.c \o " " \o @, !.c = "C11.only_addressed"] : x \in sd} ELSE {})
             \cup (IF "C17" \in W THEN {[x EXCEPT !.c = "C17.schema_call"] : x \in {y \in sd : y.sig # "" /\ \E i \in DOMAIN b.m.fields : b.m.fields[i].kind = "custom" /\ b.m.fields[i].path = y.p}} ELSE {})
+            \cup (IF "C18" \in W THEN {[x EXCEPT !.sig = x.c \o " " \o @, !.c = "C18.exclude_restores"] : x \in sd} ELSE {})
+            \cup (IF gen.exit = 0 /\ Len(gen.alts) = Len(cfg.alts) THEN AltViol(cfg, gen) ELSE {})
             \cup GroupViol(mem, entries) \cup schViol
      IN /\ bid' = Line.id
         /\ shp' = meta.shape
@@ -129,7 +131,8 @@ TraceReset ==
                   maskattrs |-> meta.pair.maskattrs, maskfields |-> meta.pair.maskfields, step |-> 0]
         /\ ReportE(viol, reg /\ SchemaTT(Line.schema) # b.m.tt, "schema type vs model",
                    {p \in {"C01", "C12", "C18", "C16"} : p \in W} \cup {p \in {"C02", "C10", "C11", "C17"} : p \in W /\ reg}
-                   \cup {meta.gchecks[i].p : i \in DOMAIN meta.gchecks})
+                   \cup {meta.gchecks[i].p : i \in DOMAIN meta.gchecks}
+                   \cup {p \in {"C14", "C15", "C16"} : p \in W /\ cfg.alts # <<>>})
 
 \* ---- behaviours paired line by line (same vectors through two generated variants)
 RECURSIVE MaskTT(_, _)
@@ -185,7 +188,10 @@ TraceStep(e) ==
         /\ pr' = [pr EXCEPT !.step = k]
         /\ pm' = IF pr.key # "" /\ pr.role = "base"
                   THEN Put(pm, pr.key, IF pr.key \in DOMAIN pm /\ k > 1 THEN Append(pm[pr.key], snap) ELSE <<snap>>) ELSE pm
-        /\ ReportE(j.viol \cup pairViol, drift /\ ~("nodrift" \in Wanted), e, j.evald \cup pairEval)
+        /\ ReportE(j.viol \cup pairViol
+                   \cup (IF "C18" \in Wanted THEN {[x EXCEPT !.sig = x.c \o " " \o @, !.c = "C18.exclude_restores"] : x \in j.viol} ELSE {}),
+                   drift /\ ~("nodrift" \in Wanted), e,
+                   j.evald \cup pairEval \cup (IF "C18" \in Wanted /\ j.evald # {} THEN {"C18"} ELSE {}))
 
 \* a behaviour whose root type was not generated / did not compile: its lines are skipped
 TraceSkip ==
